@@ -8828,6 +8828,18 @@ void SoPlexBase<R>::_syncLPRational(bool time)
    if(time)
       _statistics->syncTime->start();
 
+   // the rational LP has to be a copy of the LP as the user entered it, not of its persistently scaled internal form
+   if(_isRealLPScaled)
+   {
+      if(_isRealLPLoaded)
+         _solver.unscaleLPandReloadBasis();
+      else
+         _realLP->unscaleLP();
+
+      _isRealLPScaled = false;
+      ++_unscaleCalls;
+   }
+
    // copy LP
    _ensureRationalLP();
    *_rationalLP = *_realLP;
